@@ -9,6 +9,7 @@ observed value after checking it against the relation the property states.
 -/
 import WtVerif.Driver.Ops3
 import WtVerif.Driver.Worker
+import WtVerif.Driver.StreamMap
 
 namespace Ops
 open Text
@@ -47,16 +48,18 @@ def subsequence : List String → List String → Bool
   | _ :: _, [] => false
   | x :: xs, y :: ys => if x == y then subsequence xs ys else subsequence (x :: xs) ys
 
-/-- `https://authority/path?query` split by hand for plain URLs (no userinfo, no fragment,
+/-- `https://authority/path?query#fragment` split by hand for plain URLs (no userinfo,
 nothing the `url` crate would rewrite); `none` = not a plain URL -/
 def plainUrl (u : List Char) : Option (List Char × List Char) :=
   let pre := "https://".toList
   if u.take 8 != pre then none
   else
+    -- the fragment is not part of the request target (RFC 9110 §7.1)
+    let u := u.takeWhile (· != '#')
     let rest := u.drop 8
     let auth := rest.takeWhile (fun c => c != '/' && c != '?')
     let after := rest.drop auth.length
-    let safe (c : Char) : Bool := c.isAlphanum || "-._~:/?=&[]".toList.contains c
+    let safe (c : Char) : Bool := c.isAlphanum || "-._~:/?=&[]%".toList.contains c
     if auth.isEmpty || !u.all safe || auth.any (· == '@') then none
     else
       let path := if after.isEmpty then ['/'] else if after.head? == some '?' then '/' :: after else after
@@ -250,6 +253,21 @@ def handle4 (op : String) (a obs : List String) : Option Verdict :=
       ("only_live_session_payloads_unaltered_in_order", subsequence recvd live),
       ("foreign_datagrams_do_not_disturb", broken || (field obs "then" == "alive" && field obs "peer_close" == "alive"))]
     pure (model, prop)
+  | "finish.retry" =>
+    let shown (o : Option (Except StreamMap.WriteError Unit)) : String :=
+      match o with
+      | none => "pending"
+      | some (.ok ()) => "ok"
+      | some (.error _) => "err"
+    -- first call: quinn's finish() succeeds, nothing acknowledged; second call: ClosedStream,
+    -- still nothing acknowledged; last call: everything acknowledged
+    let model := [s!"first={shown (StreamMap.finishCall false none)}", s!"second={shown (StreamMap.finishCall true none)}",
+      "received_all=true", s!"final={shown (StreamMap.finishCall true (some .finished))}"]
+    let prop := check [("no_trap", !isTrap obs),
+      ("finish_pending_until_acknowledged", field obs "first" == "pending" && field obs "second" == "pending"),
+      ("data_and_end_of_stream_delivered", field obs "received_all" == "true"),
+      ("finish_succeeds_once_acknowledged", field obs "final" == "ok")]
+    some (model, prop)
   | "signal" => do
     let code := get a 3
     let action := get a 2
